@@ -89,6 +89,8 @@ struct MapSt {
     file_sig: Option<[u64; 3]>,
     /// the map's files exist (it was opened at least once)
     ever_opened: bool,
+    /// number of update ops applied to this map
+    upd: u64,
 }
 
 #[cfg(feature = "hooks")]
@@ -172,7 +174,10 @@ pub struct Exec<'a> {
     maps: Vec<MapSt>,
     curm: usize,
     pub rep: Report,
-    held_iters: Vec<Box<dyn std::any::Any>>,
+    /// iterators kept alive across calls: (map index, that map's update count at creation, iterator)
+    held_iters: Vec<(usize, u64, Box<dyn crate::dbx::LiveIter>)>,
+    /// symbolic link the database was opened through (removed by Op::HidePath)
+    link: Option<std::path::PathBuf>,
     /// called right before a flush/sync call (op index)
     pub on_sync_begin: Option<Box<dyn FnMut(usize) + 'a>>,
     /// called right after a flush/sync call returned Ok: (op index, names of the files that had to be OS-synced)
@@ -189,13 +194,28 @@ impl<'a> Exec<'a> {
             curm: 0,
             rep: Report::default(),
             held_iters: Vec::new(),
+            link: None,
             on_sync_begin: None,
             on_sync_end: None,
         };
         if h.excluded > 0 {
             e.rep.add("excluded_draws", h.excluded);
         }
-        let db = match abyssiniandb::open_file(&ctx.dir) {
+        let mut open_path = ctx.dir.clone();
+        if h.ops.iter().any(|op| matches!(op, Op::HidePath)) {
+            // open through a symbolic link that is removed later: the path given at open stops
+            // resolving while the files stay where they are
+            let mut l = ctx.dir.clone().into_os_string();
+            l.push("-lnk");
+            let l = std::path::PathBuf::from(l);
+            let _ = std::fs::remove_file(&l);
+            let _ = std::fs::create_dir_all(&ctx.dir);
+            if std::os::unix::fs::symlink(&ctx.dir, &l).is_ok() {
+                open_path = l.clone();
+                e.link = Some(l);
+            }
+        }
+        let db = match abyssiniandb::open_file(&open_path) {
             Ok(d) => d,
             Err(err) => fail!("error", None, "open_file: {err}"),
         };
@@ -224,6 +244,7 @@ impl<'a> Exec<'a> {
                 updates_since_sync: 1, // creation counts as an update
                 file_sig: None,
                 ever_opened: !ms.late,
+                upd: 0,
             });
         }
         Ok(e)
@@ -289,11 +310,25 @@ impl<'a> Exec<'a> {
             obs.full_compare_every_op = false;
             obs.isolation = false;
         }
+        if self.dbs.is_empty() {
+            // every database object was dropped (Op::DropDb): what needs one is skipped until the reopen
+            let skip = match op {
+                Op::Reacquire | Op::ReacquireP { .. } | Op::CloneDb | Op::DbSyncData | Op::DbSyncAll | Op::DropAll | Op::DropDb => true,
+                Op::Use { m } => self.maps[*m as usize % self.maps.len()].handles.is_empty(),
+                _ => false,
+            };
+            if skip {
+                return Ok(());
+            }
+        }
         if !matches!(
             op,
             Op::Use { .. } | Op::Reopen { .. } | Op::DropAll | Op::DbSyncData | Op::DbSyncAll
         ) {
             self.ensure_open(self.curm, o)?;
+        }
+        if op.is_update() {
+            self.maps[self.curm].upd += 1;
         }
         if obs.isolation && op.is_update() {
             self.isolation_before()?;
@@ -564,6 +599,75 @@ impl<'a> Exec<'a> {
                 // the state after the batch is checked right away
                 self.full_compare(o)?;
             }
+            Op::PutRel { k, mode, n } => {
+                let key = self.key(*k);
+                let val = rel_value(self.maps[self.curm].model.get(&key), *mode, *n, *k);
+                self.note_put(&key, &val);
+                if let Err(e) = self.hnd().put(&key, &val) {
+                    fail!("error", o, "put (value derived from the stored one, mode {}) returned Err: {e}", mode % 6);
+                }
+                self.maps[self.curm].model.insert(key, val);
+                self.maps[self.curm].updates_since_sync += 1;
+                self.rep.bump(["put_appending", "put_truncating", "put_identical", "put_one_byte_changed", "put_prepending", "put_doubled"][(*mode % 6) as usize]);
+            }
+            Op::IterNth { f, n } => {
+                let f = *f % 7;
+                let n = *n as usize % 6;
+                let plain = self.hnd().iterate(f, None, 0);
+                self.check_iter(o, f, None, &plain)?;
+                let out = self.hnd().iterate_nth(f, n);
+                let total = self.maps[self.curm].model.len();
+                let fname = ITER_FLAVOURS[f as usize];
+                let exp: Vec<&(Option<Vec<u8>>, Option<Vec<u8>>)> = plain.items.iter().skip(n).step_by(n + 1).collect();
+                if out.items.len() != exp.len() || out.items.iter().zip(exp.iter()).any(|(a, b)| a != *b) {
+                    fail!(
+                        "mismatch",
+                        o,
+                        "{fname}: a traversal by nth({n}) yields {} items, which are not the items {n}, {}.. of the plain traversal ({} expected, len {total})",
+                        out.items.len(),
+                        2 * n + 1,
+                        exp.len()
+                    );
+                }
+                for (j, h) in out.hints.iter().enumerate() {
+                    let rem = total.saturating_sub(j * (n + 1));
+                    if *h != (rem, Some(rem)) {
+                        fail!("mismatch", o, "{fname}: size_hint after {j} calls of nth({n}) = {:?}, expected ({rem}, Some({rem})) (len {total})", h);
+                    }
+                }
+                if n > 0 && total > n {
+                    self.rep.bump("iter_by_nth");
+                }
+            }
+            Op::HoldIter { f, take } => {
+                let mi = self.curm;
+                let upd = self.maps[mi].upd;
+                let it = self.hnd().live_iter(*f, *take as usize % 5);
+                self.held_iters.push((mi, upd, it));
+                if self.held_iters.len() > 6 {
+                    self.held_iters.remove(0);
+                }
+                self.rep.bump("iterator_held_across_calls");
+            }
+            Op::DropIters => {
+                self.drain_held(o)?;
+            }
+            Op::DropDb => {
+                // the handles stay alive and in use
+                self.dbs.clear();
+                self.rep.bump("database_object_dropped_handles_alive");
+            }
+            Op::HidePath => {
+                // a map that was never opened could not be created through a path that no longer
+                // resolves: the path is hidden only when every map's files exist
+                if self.maps.iter().any(|m| !m.ever_opened) {
+                    return Ok(());
+                }
+                if let Some(l) = self.link.take() {
+                    let _ = std::fs::remove_file(&l);
+                    self.rep.bump("open_path_hidden");
+                }
+            }
             Op::PutFromOwnIter { t } => {
                 let r = self.hnd().put_from_own_iter(*t);
                 if let Err(e) = r {
@@ -792,6 +896,10 @@ impl<'a> Exec<'a> {
 
     pub fn full_compare(&mut self, o: Option<usize>) -> Result<(), Failure> {
         for mi in 0..self.maps.len() {
+            if self.dbs.is_empty() && self.maps[mi].handles.is_empty() {
+                // no database object left to look the map up through (Op::DropDb): after the reopen
+                continue;
+            }
             self.ensure_open(mi, o)?;
             let keys = self.maps[mi].keys.clone();
             let ms = &mut self.maps[mi];
@@ -823,6 +931,20 @@ impl<'a> Exec<'a> {
             }
         }
         Ok(())
+    }
+
+    /// full traversal of which the first `off` steps were taken earlier without recording hints
+    fn check_iter_offset(&mut self, o: Option<usize>, f: u8, out: &IterOut, off: usize) -> Result<(), Failure> {
+        let total = self.maps[self.curm].model.len();
+        let off = off.min(total);
+        let mut o2 = IterOut {
+            items: out.items.clone(),
+            hints: (0..off).map(|j| (total - j, Some(total - j))).collect(),
+            after_end: Vec::new(),
+            ended: out.ended,
+        };
+        o2.hints.extend(out.hints.iter().cloned());
+        self.check_iter(o, f, None, &o2)
     }
 
     fn check_iter(
@@ -1425,7 +1547,26 @@ impl<'a> Exec<'a> {
         Ok(())
     }
 
-    fn close_all(&mut self, order: u8) {
+    /// held iterators whose map was not updated since their creation must deliver exactly the rest
+    fn drain_held(&mut self, o: Option<usize>) -> Result<(), Failure> {
+        let held = std::mem::take(&mut self.held_iters);
+        for (mi, upd, mut it) in held {
+            if self.maps[mi].upd == upd {
+                let (f, off) = (it.flavour(), it.taken());
+                let out = it.drain();
+                let saved = self.curm;
+                self.curm = mi;
+                let r = self.check_iter_offset(o, f, &out, off);
+                self.curm = saved;
+                r?;
+                self.rep.bump("held_iterator_drained");
+            }
+            drop(it);
+        }
+        Ok(())
+    }
+
+    fn close_all(&mut self, order: u8) -> Result<(), Failure> {
         // a half-consumed iterator keeps an Rc alive: it must not prevent the close once dropped
         match order % 4 {
             0 => {
@@ -1456,25 +1597,40 @@ impl<'a> Exec<'a> {
                 }
             }
             _ => {
-                // create a half consumed iterator on every map, drop handles first, iterator last
+                // a half consumed iterator on every map; handles and the database object are dropped
+                // first; the iterators, now the only owners, must still deliver exactly the rest
                 let mut its = Vec::new();
-                for ms in self.maps.iter_mut() {
+                for (mi, upd, it) in std::mem::take(&mut self.held_iters) {
+                    if self.maps[mi].upd == upd {
+                        its.push((mi, it));
+                    }
+                }
+                for (mi, ms) in self.maps.iter_mut().enumerate() {
                     if let Some(h) = ms.handles.first_mut() {
-                        its.push(h.live_iter(ms.model.len() as u8, 1));
+                        its.push((mi, h.live_iter(ms.model.len() as u8, 1)));
                     }
                     ms.handles.clear();
                 }
                 self.dbs.clear();
-                self.held_iters.clear();
-                drop(its);
+                for (mi, mut it) in its {
+                    let (f, off) = (it.flavour(), it.taken());
+                    let out = it.drain();
+                    let saved = self.curm;
+                    self.curm = mi;
+                    let r = self.check_iter_offset(None, f, &out, off);
+                    self.curm = saved;
+                    drop(it);
+                    r?;
+                }
                 self.rep.bump("close_with_live_iterator");
             }
         }
+        Ok(())
     }
 
     fn reopen(&mut self, i: usize, params: &Params, child: bool, order: u8) -> Result<(), Failure> {
         let o = Some(i);
-        self.close_all(order);
+        self.close_all(order)?;
         self.rep.bump("reopen");
         let any_del = self.rep.has("delete_present");
         let any_ow = self.rep.has("overwrite");
@@ -1505,7 +1661,14 @@ impl<'a> Exec<'a> {
                     self.rep.bump("reopen_other_buckets");
                 }
             }
-            let hnd = match open_map(&self.dbs[0], &name, kt, params) {
+            // the table size of an existing map is the stored one: Capacity(0) / BucketsSize(0), which
+            // a creation refuses by contract, are as irrelevant as any other value at reopen
+            let mut p = *params;
+            if self.maps[mi].ever_opened && i % 7 == 3 {
+                p.buckets = if i % 2 == 0 { Buckets::Capacity(0) } else { Buckets::BucketsSize(0) };
+                self.rep.bump("reopen_with_zero_table_parameter");
+            }
+            let hnd = match open_map(&self.dbs[0], &name, kt, &p) {
                 Ok(m) => m,
                 Err(err) => fail!("error", o, "reopening map {name}: {err}"),
             };
@@ -1596,7 +1759,8 @@ impl<'a> Exec<'a> {
     fn finish(&mut self) -> Result<(), Failure> {
         let o = Some(self.h.ops.len());
         self.full_compare(o)?;
-        self.close_all(0);
+        // the final close uses all four drop orders too (by the length of the history)
+        self.close_all((self.h.ops.len() % 4) as u8)?;
         if self.h.obs.decode_at_close || self.h.obs.decode_every_op {
             self.decode_closed(o)?;
         }
@@ -1605,7 +1769,7 @@ impl<'a> Exec<'a> {
 
     /// closes everything (used by drivers that look at the files afterwards)
     pub fn close(&mut self) {
-        self.close_all(0);
+        let _ = self.close_all(0);
     }
 }
 
@@ -1778,6 +1942,11 @@ pub fn model_after(h: &History, n_ops: usize) -> Vec<BTreeMap<Vec<u8>, Vec<u8>>>
                 for (k, v) in kvs {
                     models[cur].insert(key(cur, *k), v.bytes());
                 }
+            }
+            Op::PutRel { k, mode, n } => {
+                let kb = key(cur, *k);
+                let v = rel_value(models[cur].get(&kb), *mode, *n, *k);
+                models[cur].insert(kb, v);
             }
             Op::PutFromOwnIter { t } => {
                 for v in models[cur].values_mut() {
